@@ -119,6 +119,7 @@ def plan(tier, seed):
     units += [("repeat", e.name) for e in ENC if e.name not in ("psbytes",)]
     units += [("sizes", tier, e.name) for e in ENC]
     units += [("isolation", i, ISO_PARTS) for i in range(ISO_PARTS)]
+    units += core.interp_axis([("repeat", n) for n in ("b64", "hex", "utf16", "xml", "unesc", "concat+", "rev", "repl", "cmd^1")])
     return units
 
 
